@@ -13,7 +13,7 @@ from p11client import Exec, Died, Hang, mkconf
 import tsanlog, keymat
 
 SO, USER = b'so-pin-18', b'user-pin-18'
-WORKLOADS = ['session-objects', 'token-writers', 'session-churn', 'login-churn', 'crypto', 'destroy-race', 'first-find', 'shared-key', 'keygen', 'keygen-token', 'two-token']
+WORKLOADS = ['session-objects', 'token-writers', 'session-churn', 'login-churn', 'crypto', 'destroy-race', 'first-find', 'shared-key', 'keygen', 'keygen-token', 'two-token', 'two-token-logins', 'destroy-set-race']
 USER2, SO2 = b'user-pin-18b', b'so-pin-18b'
 
 def setup(paths, ck, cfg, d, locking, seed, yield_p=0.2, yield_us=120, pre=None):
@@ -54,6 +54,21 @@ def gen_script(ck, x, slot, tid, rnd, n_iter, wl, race_handles=(), extra=None):
         for (lab, h) in order:
             add({'fn': 'C_GetSessionInfo', 's': sref}, None)
             add({'fn': 'C_DestroyObject', 's': sref, 'o': h}, ('race-destroy', lab))
+        add({'fn': 'C_CloseSession', 's': sref}, ('ok',)); return S, E
+    if wl == 'two-token-logins':      # PIN verifications (key derivations) of two DIFFERENT tokens at the same time: each holds only its own token's mutex; the right PIN is never refused, a wrong one never accepted
+        S.clear(); E.clear(); sl, pin = (slot, USER) if tid % 2 == 0 else (extra['slot2'], USER2)
+        for it in range(n_iter):
+            o2 = add({'fn': 'C_OpenSession', 'slot': sl}, ('ok',)); s2 = '$%d.h' % o2
+            add({'fn': 'C_Login', 's': s2, 'user': 1, 'pin': pin.hex()}, ('rv-in', ('CKR_OK', 'CKR_USER_ALREADY_LOGGED_IN')))
+            if it % 3 == 0: add({'fn': 'C_Login', 's': s2, 'user': 1, 'pin': (pin[:-1] + bytes([pin[-1] ^ 1])).hex()}, ('rv-in', ('CKR_PIN_INCORRECT', 'CKR_USER_ALREADY_LOGGED_IN')))
+            if it % 4 == 1: add({'fn': 'C_SetPIN', 's': s2, 'old': pin.hex(), 'new': pin.hex()}, ('ok',))
+            add({'fn': 'C_Logout', 's': s2}, ('rv-in', ('CKR_OK', 'CKR_USER_NOT_LOGGED_IN')))
+            add({'fn': 'C_CloseSession', 's': s2}, ('ok',))
+        return S, E
+    if wl == 'destroy-set-race':      # one thread destroys the prepared token objects while the others rewrite them with long values (an attribute transaction that stays open for a while)
+        for (lab, h) in race_handles:
+            if tid == 0: add({'fn': 'C_GetSessionInfo', 's': sref}, None); add({'fn': 'C_DestroyObject', 's': sref, 'o': h}, ('race-destroy', lab))
+            else: add({'fn': 'C_SetAttributeValue', 's': sref, 'o': h, 'tmpl': x.T({'CKA_APPLICATION': b'A%d-' % tid + b'x' * rnd.choice([200, 20000, 300000])})}, None)
         add({'fn': 'C_CloseSession', 's': sref}, ('ok',)); return S, E
     if wl == 'first-find':       # objects that have NO handle yet (the library was re-initialised after they were stored): all threads look them up for the first time at once
         # one search over everything: C_FindObjectsInit registers a handle for every object in one call, in the same order in every thread
@@ -213,6 +228,7 @@ def judge_threads(ck, wl, scripts, exps, results, V):
     for obj, l in race.items():
         oks = [x for x in l if x[1] == 'CKR_OK']
         if len(oks) != 1: V(f'C_DestroyObject|{wl}|same-object-destroyed-{len(oks)}-times', 'several threads destroyed the same object and not exactly one of them succeeded', {'object': obj, 'results': l})
+    judge_threads.race = race
     return calls, created, destroyed
 
 def stress_job(job):
@@ -232,11 +248,23 @@ def stress_job(job):
             elif shared and key.startswith('C_SetAttributeValue|') and key.endswith('CKR_GENERAL_ERROR'): k = 'token-objects|shared-object|concurrent-C_SetAttributeValue-refused(CKR_GENERAL_ERROR)'
             elif not shared and any(f in key for f in FAMILY_OWN) and not key.startswith(('crash', 'deadlock', 'handle-issued-twice', 'C_Digest', 'C_Decrypt', 'C_Encrypt', 'C_OpenSession', 'C_CloseSession', 'C_Finalize') + (() if wl == 'keygen-token' else ('C_Sign',))):
                 k = 'token-objects|own-new-object|attributes-lost-or-handle-invalid(ObjectFile::refresh window)'
+        if wl == 'keygen-token' and k == key.replace('|' + wl, '|' + oc) and '$' in json.dumps(detail.get('req') or {}) and key.split('|')[-1].startswith('CKR_') and not key.startswith(('C_OpenSession', 'C_CloseSession', 'C_Finalize', 'C_Digest')):
+            # the same root cause seen through other entry points: a call on the thread's OWN freshly generated token object finds attributes missing (CKA_EXTRACTABLE, CKA_SIGN, the value ...);
+            # the strict variant of this workload (session objects only, 'keygen') has no such exemption
+            k = 'token-objects|own-new-object|attributes-lost-or-handle-invalid(ObjectFile::refresh window)'
+        if wl == 'destroy-set-race' and (key.startswith('quiescent|') or key.startswith('C_DestroyObject|')):
+            # known root cause (DESIGN 8.4, C18 family D): OSToken::deleteObject invalidates and unlinks an object whose attribute transaction another thread still has open; that thread's
+            # commit (or its abort, which re-reads) re-creates or empties the file: after a re-initialisation the destroyed object is back, without label, or twice
+            k = 'token-objects|same-object|destroyed-while-another-thread-rewrites-it(resurrected-or-damaged-after-re-initialisation)'
         viol.append((k, what, detail))
     x = None
     try:
         x, slot, s0 = setup(job['paths'], ck, cfg, d, job['locking'], seed, yield_p=job.get('yield_p', 0.2), yield_us=job.get('yield_us', 120), pre=job.get('pre'))
         scripts = []; exps = []; race_handles = []
+        if wl == 'destroy-set-race':
+            for i in range(job['iters']):
+                lab = 'DS%d' % i; rr = x.call('C_CreateObject', s=s0, tmpl=x.T({'CKA_CLASS': ck.CKO_DATA, 'CKA_TOKEN': True, 'CKA_PRIVATE': i % 2 == 0, 'CKA_LABEL': lab.encode(), 'CKA_APPLICATION': b'init', 'CKA_VALUE': b'r' * 8})); assert rr['rv'] == 0
+                race_handles.append((lab, rr['h']))
         if wl == 'destroy-race':      # complete objects exist before any thread starts: public session objects of the setup session and public token objects
             for i in range(job['iters'] * 3):
                 lab = 'R%d' % i; rr = x.call('C_CreateObject', s=s0, tmpl=x.T({'CKA_CLASS': ck.CKO_DATA, 'CKA_TOKEN': i % 3 == 0, 'CKA_PRIVATE': False, 'CKA_LABEL': lab.encode(), 'CKA_VALUE': b'r' * 8})); assert rr['rv'] == 0
@@ -257,7 +285,7 @@ def stress_job(job):
             extra['RSAK'] = mk(KT['rsa_priv'], CKA_TOKEN=True, CKA_PRIVATE=True, CKA_LABEL=b'RSAK', CKA_SENSITIVE=True, CKA_EXTRACTABLE=False); extra['RSAP'] = mk(KT['rsa_pub'], CKA_TOKEN=True, CKA_PRIVATE=False, CKA_LABEL=b'RSAP')
             extra['AESK'] = mk(KT['aes'], CKA_TOKEN=True, CKA_PRIVATE=True, CKA_LABEL=b'AESK'); extra['GENK'] = mk(KT['generic'], CKA_TOKEN=False, CKA_PRIVATE=True, CKA_LABEL=b'GENK')
         if wl in ('keygen', 'keygen-token'): extra['WRAPK'] = mk(keymat.key_templates(ck)['aes'], CKA_TOKEN=True, CKA_PRIVATE=False, CKA_LABEL=b'WRAPK')
-        if wl == 'two-token':
+        if wl in ('two-token', 'two-token-logins'):
             x.call('C_GetSlotList', null=True); free = [sl for sl in x.call('C_GetSlotList', count=8)['slots'] if not x.call('C_GetTokenInfo', slot=sl)['flags'] & ck.CKF_TOKEN_INITIALIZED][0]
             assert x.call('C_InitToken', slot=free, pin=SO2.hex(), label=b'tok18b'.hex())['rv'] == 0; x.call('C_GetSlotList', null=True)
             extra['slot2'] = [sl for sl in x.call('C_GetSlotList', count=8)['slots'] if sl != slot and x.call('C_GetTokenInfo', slot=sl)['flags'] & ck.CKF_TOKEN_INITIALIZED][0]
@@ -271,12 +299,24 @@ def stress_job(job):
             part.case((cfg, wl, nth, job['locking'])); return part
         except Hang:
             part.violation(f'deadlock-or-hang|{wl}', 'no reply from the threads run within the watchdog (deadlock)', {'workload': wl, 'threads': nth, 'seed': seed, 'locking': job['locking'], 'cfg': cfg}); return part
-        calls, created, destroyed = judge_threads(ck, wl, scripts, exps, r['results'], V)
+        calls, created, destroyed = judge_threads(ck, wl, scripts, exps, r['results'], V); race_results = dict(getattr(judge_threads, 'race', {}))
         if job['locking'] == 'cb' and not (r.get('locks') or 0) > 0:
             V('locking|application-mutex-callbacks-never-invoked', 'C_Initialize was given mutex callbacks but the library never called LockMutex during a concurrent run: locking is not in effect', {'pre': job.get('pre'), 'locks': r.get('locks')})
         overlap = sum(1 for res in r['results'] if res) >= 2
         # quiescent conservation check through the setup session (user still logged in, except after login churn)
         if wl == 'login-churn': x.call('C_Login', s=s0, user=1, pin=USER.hex())
+        if wl == 'two-token-logins':      # both user PINs still log in (a key derivation disturbed while a PIN was being re-wrapped would have lost it)
+            for sl_, pin_ in ((slot, USER), (extra['slot2'], USER2)):
+                sx = x.call('C_OpenSession', slot=sl_)['h']; x.call('C_Logout', s=sx); rr = x.call('C_Login', s=sx, user=1, pin=pin_.hex())
+                if rr['rv'] != 0: V(f'quiescent|{wl}|user-pin-no-longer-logs-in', 'after the run a user PIN that was only ever replaced by itself no longer logs in', {'rv': rr['rvname']})
+                x.call('C_Logout', s=sx); x.call('C_CloseSession', s=sx)
+            x.call('C_Login', s=s0, user=1, pin=USER.hex())
+        if wl == 'destroy-set-race':      # what was destroyed stays destroyed also for a library that reads the token directory afresh
+            assert x.call('C_Finalize')['rv'] == 0 and x.call('C_Initialize', **x.init_args)['rv'] == 0
+            slot = [sl for sl in x.call('C_GetSlotList', count=8)['slots'] if x.call('C_GetTokenInfo', slot=sl)['flags'] & ck.CKF_TOKEN_INITIALIZED][0]
+            s0 = x.call('C_OpenSession', slot=slot)['h']; assert x.call('C_Login', s=s0, user=1, pin=USER.hex())['rv'] == 0
+            for lab, l in list(race_results.items()):
+                if any(rv == 'CKR_OK' for _, rv in l): destroyed.add(lab.encode())
         rvn, hs = x.findall(s0, {}); labels = []
         for h in hs:
             rr = x.getattrs(s0, h, ['CKA_LABEL'])[1].get('CKA_LABEL'); labels.append(rr)
@@ -496,14 +536,14 @@ def run(ctx):
     except FileNotFoundError: base = set()
     jobs = []; common = dict(paths=ctx.paths, hdr=ctx.paths['asan']['hdr'], scratch=ctx.scratch, race_baseline=base)
     seeds = ctx.q(4, 12); tcounts = ctx.q([8], [2, 4, 8, 16])
-    def ITERS(wl): return ctx.q(10, 20) if wl.startswith('keygen') else ctx.q(15, 30) if wl in ('shared-key', 'two-token') else ctx.q(25, 40)
+    def ITERS(wl): return ctx.q(10, 20) if wl.startswith('keygen') or wl in ('two-token-logins', 'destroy-set-race') else ctx.q(15, 30) if wl in ('shared-key', 'two-token') else ctx.q(25, 40)
     for wl in WORKLOADS:
         for nth in tcounts:
             for i in range(seeds):
                 locking = 'cb' if i % 2 == 0 else 'os'
                 jobs.append(dict(common, kind='stress', cfg='asan', wl=wl, threads=nth, seed=ctx.seed * 1000 + i, iters=ITERS(wl), locking=locking, yield_p=[0.2, 0.03][(i // 2) % 2], yield_us=[120, 8000][(i // 2) % 2],
                                  pre=[None, None, ('null',), ('none',), ('os',), ('null', 'os')][(i + WORKLOADS.index(wl)) % 6]))
-        if wl in ('first-find', 'destroy-race'):      # windows a few instructions wide between two critical sections: callbacks with stalls in every run, and more runs (they are short)
+        if wl in ('first-find', 'destroy-race', 'destroy-set-race'):      # windows a few instructions wide between two critical sections: callbacks with stalls in every run, and more runs (they are short)
             for j in jobs:
                 if j.get('wl') == wl: j.update(locking='cb')
             for i in range(ctx.q(6, 24)):
@@ -517,7 +557,7 @@ def run(ctx):
     lh = ctx.obs.get('lock-order hashes', {}); ctx.extra['distinct_lock_order_hashes'] = len(lh.get('examples', []))
     ctx.rule = ('one evaluation = one concurrent run (2-16 threads x 25-40 iterations of the workload mix) or one linearizability-checked history (3-4 threads x 5-9 calls); '
                 'distinct = (build, workload, thread count, locking mode, hash of the observed (mutex, thread) acquisition order) resp. (history shape); non-trivial when at least two threads ran; '
-                'workloads: ' + ', '.join(WORKLOADS) + ' (shared-key: all threads sign / encrypt / MAC with the same private token keys, results compared with refcrypt; keygen: C_GenerateKey / C_GenerateKeyPair / C_WrapKey / C_UnwrapKey per thread; two-token: half of the threads churn sessions and logins on a second token); oracles: crash/ASan, watchdog, unexplained failures, own-object read-back, thread-local results vs hashlib/hmac, '
+                'workloads: ' + ', '.join(WORKLOADS) + ' (shared-key: all threads sign / encrypt / MAC with the same private token keys, results compared with refcrypt; keygen: C_GenerateKey / C_GenerateKeyPair / C_WrapKey / C_UnwrapKey per thread; two-token: half of the threads churn sessions and logins on a second token; two-token-logins: PIN verifications of two tokens at the same time; destroy-set-race: one thread destroys token objects that the others are rewriting, judged after a re-initialisation); oracles: crash/ASan, watchdog, unexplained failures, own-object read-back, thread-local results vs hashlib/hmac, '
                 'unique-label search counts, handle uniqueness, quiescent conservation, TSan race locations vs baseline, Wing-Gong linearizability search')
     ctx.assumptions += ['schedules are sampled (seeded yields at every application mutex callback), not enumerated', 'thread schedules cannot be replayed deterministically (no rr); the witness is the recorded history and the seeds',
                         'file back-end only, as the property says']
